@@ -11,6 +11,7 @@ from fractions import Fraction
 
 from ..core import frac
 from . import _c08ext as _ext
+from . import _c08lab as _lab   # round 5: re_label pattern / from_label
 
 LEVEL = "proof"
 RULE = ("random region tables (1..4 dozen rows; chromosome names 1..22/X/Y/M/MT, 3-digit numbers, alt/random/Un/hap "
@@ -809,6 +810,7 @@ def corpus():
     cases.append({"op": "fmt_roundtrip", "tag": "corpus-numbers",
                   "in": {"wfmt": "tab", "rfmt": "tab", "cna": True, "t0": {"names": ["gene", "log2"], "rows": rows}}})
     cases.extend(_ext.corpus(_table))
+    cases.extend(_lab.corpus())
     return cases
 
 
@@ -832,6 +834,7 @@ def gen_cases(rng, tier):
         for _ in range(20 * n):
             cases.append(_malformed(rng))
     cases.extend(_ext.gen_cases(rng, tier, _table))   # round 4: after everything else, so earlier case streams are unchanged
+    cases.extend(_lab.gen_cases(rng, tier))   # round 5: likewise last
     return cases
 
 
@@ -990,6 +993,8 @@ def run_impl(case):
     from skgenome import tabio
 
     op, i = case["op"], case["in"]
+    if op in _lab.EXT_OPS:
+        return _lab.run_impl(case)
     if op in _ext.EXT_OPS:
         return _ext.run_impl(case, {"read_lines": _read_lines, "array": _array, "writer": _writer, "reader": _reader, "canon": _canon})
     d = tempfile.mkdtemp(dir="/var/tmp", prefix="c08-")
@@ -1100,6 +1105,8 @@ def _is_err(impl):
 
 def to_line(case, impl):
     op, i = case["op"], case["in"]
+    if op in _lab.EXT_OPS:
+        return _lab.to_line(case, impl, _is_err)
     if op in _ext.EXT_OPS:
         return _ext.to_line(case, impl, _is_err)
     if op == "fmt_read":
@@ -1209,6 +1216,8 @@ def _outside(msg):
 
 def judge(case, impl, resp):
     op, tag = case["op"], case.get("tag", "")
+    if op in _lab.EXT_OPS:
+        return _lab.judge(case, impl, resp, _is_err)
     if op in _ext.EXT_OPS:
         return _ext.judge(case, impl, resp, _is_err)
     if "error" in resp and "out" not in resp:
@@ -1298,6 +1307,8 @@ def judge(case, impl, resp):
 
 def nontrivial(case, impl, resp):
     i = case["in"]
+    if case["op"] in _lab.EXT_OPS:
+        return _lab.nontrivial(case, impl, resp)
     if case["op"] in _ext.EXT_OPS:
         return _ext.nontrivial(case, impl, resp)
     if case["op"] == "fmt_read":
@@ -1315,6 +1326,9 @@ def nontrivial(case, impl, resp):
 
 def shrink(case):
     op, i = case["op"], case["in"]
+    if op in _lab.EXT_OPS:
+        yield from _lab.shrink(case)
+        return
     if op == "fmt_roundtrip":
         rows = i["t0"]["rows"]
         for k in range(len(rows)):
